@@ -187,6 +187,8 @@ class QueryBuilder:
         if "tree" in q:
             return self.build_rule()
         quant = {"an": an, "the": the, "infer": infer}[q.get("quant", "an")]
+        for i in q.get("declare", []):       # declaration order of the variables (C18); default: order of first mention
+            self.var(i)
         ctx = rule_mode() if q.get("quant") == "infer" or q.get("mode") == "rule" else symbolic_mode()
         with ctx:
             if "head" in q:
